@@ -393,7 +393,8 @@ Definition api (fdo : nat -> Z) (s : state) (o : op) : state * list event :=
       else let '(s1, rc) := poll_init s fd in (s1, [EInit (length (hs s)) KPoll rc fd])
   | ORawInit sl =>
       let fd := slots s sl in
-      if (fd =? -1) || any_on s fd live then (s, [ESkip])
+      if (fd =? -1) || (match fdt s fd with None => true | Some _ => false end) || any_on s fd live
+      then (s, [ESkip])
       else (raw_init s fd, [EInit (length (hs s)) KRaw 0 fd])
   | OStart i m =>
       if valid s i && (match fdt s (h_fd (hget s i)) with Some _ => true | None => false end) then
